@@ -34,13 +34,13 @@ CLAIMED = {
          "static analysis: panic-site provers with inductive invariants, combinator and format-template table extraction"),
  'C02': ("decides for all byte strings: value-start dispatch table over all 256 bytes, whitespace set, the eight escape decodings, agreement of scanner and decoder escape widths, trailing-input check, number classification (u64 / i64 / correctly rounded f64), last-duplicate-wins insertion, panic inventory of the parser cone, surrogate ranges and formula, and that each of the 24 accepting paths of the number lexer matches the RFC 8259 number grammar; recursion on nesting is a known finding. Full language equality and the meaning of accepted strings are NOT decided",
          "static analysis: byte-class tables by interval sets, path-language matching of the lexer against the RFC regular expression, panic-site provers, call-graph SCCs"),
- 'C06': ("decides for all valid inputs: documented errors precede writes; every copied (entry word, payload) pair comes from one source; builders return exactly the bytes they append (exact rebuilt lengths at any depth); object-header writers emit keys from an ordered map; signed positions are cast to usize only where provably non-negative; in every entry-copying loop an entry is either copied or dropped under the edit's own condition; iterator cursors follow the layout. Equality of the output with the tree edit beyond these clauses is NOT decided",
+ 'C06': ("decides for all valid inputs: documented errors precede writes; every copied (entry word, payload) pair comes from one source; builders return exactly the bytes they append (exact rebuilt lengths at any depth); object-header writers emit keys from an ordered map; signed positions are cast to usize only where provably non-negative; in every entry-copying loop an entry is either copied or dropped under the edit's own condition; iterator cursors follow the layout; the duplicate-key scan of object_insert compares keys in the order the builders lay them out. Equality of the output with the tree edit beyond these clauses is NOT decided",
          "static analysis: provenance of call arguments, path-wise ghost-length accounting, interval facts on casts, per-editor drop-condition tables over loop paths"),
  'C07': ("decides the inductive step 'canonical in => canonical out' structurally for every writer: consistent raw copies, measured lengths in encoder and builders, ordered unique keys for every object-header writer, exact re-wrap and exact (offset, length) positions in the selector, and that no other function writes a container header. Equality with the tree result along a history is NOT decided",
          "static analysis: compositional writer rules (provenance, ghost accounting, who-may-write) over MIR"),
  'C12': ("decides for all valid documents: the byte walker compares scalar payloads only through scalar_eq, which decodes numbers and compares them with Number's exact ==; in the tree twin every recursive containment test is guarded by equal kinds or a container right operand (the top-level array/scalar exception cannot leak); the nested-candidate filter depends on the entry kind only; kinds differ -> false; contains dispatches each argument independently. Reflexivity, transitivity and the @> semantics as a whole are NOT decided",
          "static analysis: who-may-compare rule, guard edge-dominance on the CFG, closure return-term matching"),
- 'C13': ("decides for all valid documents: element key type (entry word + payload) in all four functions, complementary path classes of intersection/except (so the results partition the first list), ArrayBuilder-only output with consistent copies, three-way header dispatch per argument, result elements from the first / lookup structure from the second argument, overlap true only after a found element, independent ordered dispatch of the public wrappers. First-occurrence order and idempotence of distinct are NOT decided",
+ 'C13': ("decides for all valid documents: element key type (entry word + payload) in all four functions, complementary path classes of intersection/except (so the results partition the first list), ArrayBuilder-only output with consistent copies, three-way header dispatch per argument, result elements from the first / lookup structure from the second argument, overlap true only after a found element, every fill site of the count map stores a multiplicity >= 1 where the consumer tests count > 0, independent ordered dispatch of the public wrappers. First-occurrence order and idempotence of distinct are NOT decided",
          "static analysis: MIR local types, path-class tables over loop iterations, argument provenance"),
  'C14': ("decides structural necessary conditions of the order embedding: rank bytes are compare's ranks, the f64 bit transform is the standard monotone map, every element is emitted through the prefixing helper at the right depth, helper cursors follow the layout; four violations of the property on the pinned tree are known findings (lossy as_f64 image, to_bits of signed zero, undelimited strings, u8 depth overflow). The order embedding itself is NOT decided",
          "static analysis: expression-tree matching, who-may-append rule, interval analysis on u8, walker dataflow"),
